@@ -41,14 +41,6 @@ Definition dedisperse_pipe (fs : list file) (nch gulp start nsamps md : Z) (dela
   | PErr _ _ => None
   end.
 
-(** evaluation entry point of the correspondence run (single 8-bit file holding the samples [xs]) *)
-Definition pipe_eval (api : Z) (xs : list Z) (nch N gulp start nsamps md : Z) (dl : arr) : list Z :=
-  let fs := [mkfile [224] xs] in
-  if api =? 0 then match collapse_pipe fs nch gulp start nsamps with Some o => to_list (collapse_len N start nsamps 0) o | None => [-1] end
-  else if api =? 1 then match bandpass_pipe fs nch gulp start nsamps with Some (o, n) => to_list nch o | None => [-1] end
-  else if api =? 2 then match dedisperse_pipe fs nch gulp start nsamps md dl with Some o => to_list (dedisperse_len N start nsamps 0 md) o | None => [-1] end
-  else [-2].
-
 (** the same reductions at the packed depths: the blocks are those of Model.PlanPacked.run_plan_packed *)
 Require Import SPP.Model.PlanPacked.
 Definition collapse_pipe_packed (fs : list file) (nch nbits : Z) (big : bool) (gulp start nsamps : Z) (junk : arr) : option arr :=
@@ -62,3 +54,26 @@ Definition dedisperse_pipe_packed (fs : list file) (nch nbits : Z) (big : bool) 
   | POk bl => Some (fold_left (dedisperse_step nch gulp' md delays) bl zeros)
   | PErr _ _ => None
   end.
+
+(** compute_stats / compute_stats_basic: `bag.push_data(data, ii, mode)` for every block; per channel [c] the accumulator of
+    Model/C10_moments.v (its recurrences are Gen/Moments.v, regenerated from kernels.py) is fed the block's column with flag ii *)
+Require Import QArith Qround.
+Require Import SPP.Model.C10_rt SPP.Gen.Moments SPP.Model.C10_moments.
+Local Open Scope Z_scope.
+Definition stats_chunk (nch c : Z) (b : Z * Z * list Z) : Z * list Q :=
+  let '(n_r, ii, d) := b in (ii, map (fun t => inject_Z (of_list d (t * nch + c)%Z)) (zrange n_r)).
+Definition stats_pipe (fs : list file) (nch gulp start nsamps : Z) (full : bool) (c : Z) : option mst :=
+  match run_plan fs nch gulp start nsamps 0 with
+  | POk bl => Some (push_chunks full (map (stats_chunk nch c) bl) zero_st)
+  | PErr _ _ => None
+  end.
+
+(** evaluation entry point of the correspondence run (single 8-bit file holding the samples [xs]); api 3: count, min, max and sum of channel [md] from the statistics pipeline *)
+Definition pipe_eval (api : Z) (xs : list Z) (nch N gulp start nsamps md : Z) (dl : arr) : list Z :=
+  let fs := [mkfile [224] xs] in
+  if api =? 0 then match collapse_pipe fs nch gulp start nsamps with Some o => to_list (collapse_len N start nsamps 0) o | None => [-1] end
+  else if api =? 1 then match bandpass_pipe fs nch gulp start nsamps with Some (o, n) => to_list nch o | None => [-1] end
+  else if api =? 2 then match dedisperse_pipe fs nch gulp start nsamps md dl with Some o => to_list (dedisperse_len N start nsamps 0 md) o | None => [-1] end
+  else if api =? 3 then match stats_pipe fs nch gulp start nsamps true md with Some s => [s_cnt s; Qfloor (s_min s); Qfloor (s_max s); Qfloor (s_m1 s * inject_Z nsamps)] | None => [-1] end
+  else [-2].
+
